@@ -5,6 +5,7 @@ EXTENDS Media, Json
 CONSTANTS DEPTH, NIMG, NSLIDES, OPS,
           ARGS, VIAS,     \* size-argument patterns and sources explored by AddPicture
           LOGO,           \* 0: the deck is the default template; i > 0: slide layout 11 of the initial deck carries a picture of image i
+          CTALIAS,        \* TRUE: the deck as opened declares its JPEG parts with the content type "image/jpg" (an alias other producers write)
           NPRE            \* the deck as opened already shows the images 1..NPRE on its second slide (parts image1 .. image<NPRE>): with NPRE >= 10
                           \* the sequence numbers cross a decimal-digit boundary (image10 sorts before image2 as TEXT)
 VARIABLES st, hist
